@@ -564,7 +564,12 @@ func (e *Engine) loadPx(st *State, px *PtrX, T types.Type) Val {
 			if px.Elem >= 0 {
 				return e.loadPx(st, &PtrX{Kind: PElem, Ref: c.Spill, Idx: tb.Int(int64(px.Elem)), Root: at.Elem(), Path: px.Path, Elem: -1}, T)
 			}
-			// whole array from spilled storage: opaque token
+			// whole array from spilled storage: the token determined by its elements
+			if len(Leaves(at.Elem())) == 1 && Leaves(at.Elem())[0].Sort == SInt && px.Path == "" {
+				cl := e.elemClass(at.Elem(), "", Leaves(at.Elem())[0])
+				row := tb.Select(e.H(st, cl, SArr2I), c.Spill)
+				return Val{T: []*Term{tb.App("packr_"+typeKey(c.Typ), SInt, row, tb.Int(0), tb.Int(at.Len()))}}
+			}
 			return Val{T: []*Term{tb.Fresh("arrtok", SInt)}}
 		}
 		v := c.V
@@ -836,7 +841,7 @@ func (e *Engine) spill(st *State, cell int) *Term {
 		cl := e.elemClass(at.Elem(), "", Leaves(at.Elem())[0])
 		row := tb.App("unpack_"+typeKey(c.Typ), SArrI, tok)
 		e.setH(st, cl, tb.Store(e.H(st, cl, SArr2I), arr, row))
-		e.assume(st, tb.Eq(tb.App("pack_"+typeKey(c.Typ), SInt, row, tb.Int(0), tb.Int(at.Len())), tok))
+		e.assume(st, tb.Eq(tb.App("packr_"+typeKey(c.Typ), SInt, row, tb.Int(0), tb.Int(at.Len())), tok))
 	}
 	for i, el := range els {
 		if sl, ok := at.Elem().Underlying().(*types.Slice); ok {
